@@ -282,7 +282,7 @@ def group_case(draw, tier="quick"):
             xs = [None if f else x for x, f in zip(xs, m)]
         elif mode == "all":
             xs = [None] * n
-        name = draw(st.sampled_from(["v", "w", "amount ($)", "V", "x", "sum", "1st", None, "é"]))
+        name = draw(st.sampled_from(["v", "w", "amount ($)", "V", "x", "sum", "1st", None, "é", "T", "t", "name"]))
         form = draw(st.sampled_from(["name", "own", "own", "ext"]))
         # an external value vector may carry an explicitly declared (non-nullable) dtype although it holds None:
         # the aggregates are defined over the values, whatever the declaration says
